@@ -287,7 +287,7 @@ def call_site(u):
 def run_instrs(ck, flags, instrs, driver, scratch, variants):
     import c14_exo
     rng = ck.rng
-    host = [I for I in instrs if not (any(a.get("mem") == "AVX512" for a in I["sig"]) and "avx512f" not in flags)]
+    host = [I for I in instrs if I.get("sig") is not None and not (any(a.get("mem") == "AVX512" for a in I["sig"]) and "avx512f" not in flags)]
     not_runnable = [I["name"] for I in instrs if I not in host]
     import time as _t
     t0 = _t.time()
@@ -380,7 +380,7 @@ def run_instrs(ck, flags, instrs, driver, scratch, variants):
                 st_ = ck.stream("instr-search")
                 st_["instruction_and_body_differ"] = st_.get("instruction_and_body_differ", 0) + 1
                 szs = ",".join("%s=%s" % kv for kv in sorted(c["sizes"].items()))
-                kind = "name-capture" if capture else "result-differs"
+                kind = "non-unit-stride" if u["variant"] == "S" else ("name-capture" if capture else "result-differs")
                 ck.violation("x86:%s:%s" % (u["instr"], kind),
                              {"instr": u["instr"], "variant": u["variant"], "sizes": c["sizes"], "inputs": js(c["data"]),
                               "with_instruction": js(t), "bodies_inlined": js(r), "first_difference": first_diff(t, r),
@@ -390,10 +390,13 @@ def run_instrs(ck, flags, instrs, driver, scratch, variants):
                               "gcc": " ".join(["gcc"] + RUN.gcc_flags(flags))},
                              "%s (%s, variant %s%s): calling the instruction and inlining its body give different results: %s"
                              % (u["instr"], szs, u["variant"],
-                                ", operands named like the fragment's locals %s" % capture if capture else "",
+                                (": %s passed as the column window x[0:len, 1] of a row-major [rows, 3] buffer, which the "
+                                 "instruction's assertions permit (no `stride(x, 0) == 1`)" % c14_exo.strided_args(I))
+                                if u["variant"] == "S" else
+                                (", operands named like the fragment's locals %s" % capture if capture else ""),
                                 first_diff(t, r)))
             # variant B calls twice (not the instruction's own semantics); C identifier capture is outside the model
-            if not I["unmodelled"] and u["variant"] != "B" and not capture:
+            if not I["unmodelled"] and not I.get("failclosed") and u["variant"] not in ("B", "S") and not capture:
                 jobs.append(RUN.model_job(u["instr"], dom, u["layout"], I["sig"], c))
                 meta.append((u, I, c, t, r))
     answers = RUN.run_model(driver, jobs) if jobs else []
@@ -438,9 +441,17 @@ def run(ck: common.Check):
     import time as _t
     t0 = _t.time()
     gen_ok = ck.gen(ENGINE)
-    build_ok = ck.coq_build(ENGINE) if gen_ok else False
-    ck.log("translator + coq build: %.0fs (ok=%s)" % (_t.time() - t0, build_ok))
-    if gen_ok and not build_ok:     # name the first lemma that no longer checks in each proof file
+    sidecar = XD / "_build" / "instrs.json"         # gen.py deletes it first: if present it is from THIS source
+    have_terms = sidecar.exists() and (XD / "_build" / "probes.json").exists()
+    instrs = json.loads(sidecar.read_text()) if have_terms else []
+    failclosed = [I for I in instrs if I.get("failclosed")]
+    for I in failclosed:
+        ck.log("translator fails closed on %s: %s" % (I["name"], "; ".join(f["construct"] for f in I["failclosed"])))
+    if not gen_ok and not have_terms:
+        ck.log("translator failed globally: nothing can be checked or searched")
+    build_ok = ck.coq_build(ENGINE) if have_terms else False
+    ck.log("translator + coq build: %.0fs (translator ok=%s, build ok=%s)" % (_t.time() - t0, gen_ok, build_ok))
+    if have_terms and not build_ok:     # name the first lemma that no longer checks in each proof file
         logf = common.SCRATCH / ("build_%s_%s.log" % (ck.pid, ENGINE))
         for m in re.finditer(r'File "\./(\w+)\.v", line (\d+)', logf.read_text() if logf.exists() else ""):
             lines = (XD / (m.group(1) + ".v")).read_text().splitlines()[:int(m.group(2))]
@@ -448,20 +459,12 @@ def run(ck: common.Check):
             if names:
                 ck.broken_obligation("proof:%s.%s" % (m.group(1), names[-1]), "first statement of %s.v that no longer checks" % m.group(1))
                 ck.log("first broken statement in %s.v: %s" % (m.group(1), names[-1]))
-    if not gen_ok:
-        ck.log("translator failed: the search below still runs on whatever exo itself accepts")
-    instrs = json.loads((XD / "_build" / "instrs.json").read_text()) if gen_ok else None
-    if instrs is None:
-        # fall back to the previous sidecar only to know the names; nothing is claimed from it
-        ck.broken_obligation("translator:" + ENGINE, "no generated terms")
-        p = XD / "_build" / "instrs.json"
-        instrs = json.loads(p.read_text()) if p.exists() else []
     props_txt = (XD / "Props_C14.v").read_text()
     thms = set(re.findall(r"^Theorem (C14_[A-Za-z0-9_]+)", props_txt, flags=re.M))
     proved, refuted, missing = [], [], []
     for I in instrs:
         n = I["name"]
-        if I["unmodelled"]:
+        if I["unmodelled"] or I.get("failclosed"):
             continue
         if "C14_%s_refuted" % n in thms:
             refuted.append(n)
@@ -470,13 +473,13 @@ def run(ck: common.Check):
         else:
             missing.append(n)
             ck.broken_obligation("missing-theorem:C14_%s" % n, "x86.py has an @instr without a theorem in Props_C14.v")
-    unmodelled = [{"instr": I["name"], "intrinsics": I["unmodelled"]} for I in instrs if I["unmodelled"]]
+    unmodelled = [{"instr": I["name"], "intrinsics": I["unmodelled"]} for I in instrs if I["unmodelled"] and not I.get("failclosed")]
     for u in unmodelled:
         ck.broken_obligation("unmodelled-instruction:%s" % u["instr"],
                              "uses intrinsics without a model: %s" % ", ".join(u["intrinsics"]))
 
     # extraction (model side of the correspondence)
-    ext_ok = ck.extract(ENGINE) if gen_ok else False
+    ext_ok = ck.extract(ENGINE) if have_terms else False
     driver = XD / "_build" / "c14driver"
     validated, skipped = {}, []
     if ext_ok and driver.exists():
@@ -484,7 +487,7 @@ def run(ck: common.Check):
         t0 = _t.time()
         validated, skipped = run_probes(ck, flags, probes, driver, scratch)
         ck.log("probes: %.0fs, %s" % (_t.time() - t0, {k: v for k, v in ck.stream("probe").items() if k != "distribution"}))
-        used = sorted({c for I in instrs for c in I["calls"]})
+        used = sorted({c for I in instrs if not I.get("failclosed") for c in I["calls"]})
         not_validated = [c for c in used if c not in validated and not any(c in I["unmodelled"] for I in instrs)]
         runnable_used = [c for c in used if not (c.startswith("_mm512") and "avx512f" not in flags)]
         for c in not_validated:
@@ -495,7 +498,7 @@ def run(ck: common.Check):
         ck.broken_obligation("extraction-build:" + ENGINE, "no model driver: correspondence not run")
 
     # 3. search against the real implementation (+ instruction-level correspondence)
-    variants = ["A", "B", "L"] if ck.thorough else ["A", "B", "l"]   # "l": literal sizes only where nothing else can run
+    variants = ["A", "B", "L", "S"] if ck.thorough else ["A", "B", "l", "S"]   # "l": literal sizes only where nothing else can run
     units, not_runnable = [], []
     if ext_ok and driver.exists():
         t0 = _t.time()
@@ -552,7 +555,8 @@ def run(ck: common.Check):
         "model: searched by variant A, which names the operands like the formals)",
     ]
     ck.cov["instructions"] = {
-        "total": len(instrs), "proved": proved, "refuted_with_partial": refuted, "unmodelled": unmodelled,
+        "total": len(instrs), "translator_fail_closed": [{"instr": I["name"], "why": I["failclosed"]} for I in failclosed],
+        "proved": proved, "refuted_with_partial": refuted, "unmodelled": unmodelled,
         "missing_theorem": missing, "not_runnable_on_host": not_runnable,
     }
     ck.cov["intrinsics_hardware_validated"] = {k: validated[k] for k in sorted(validated)}
